@@ -971,7 +971,7 @@ class SourceFinder(object):
 
         sources = []
         j = 0
-        for j in range(model["components"].value):
+        for j in range(int(model["components"].value)):
             src_flags = is_flag
             source = ComponentSource()
             source.island = isle_num
@@ -984,7 +984,7 @@ class SourceFinder(object):
             sy = model[prefix + "sy"].value
             theta = model[prefix + "theta"].value
             amp = model[prefix + "amp"].value
-            src_flags |= model[prefix + "flags"].value
+            src_flags |= int(model[prefix + "flags"].value)
 
             # these are goodness of fit statistics for the entire island.
             source.residual_mean = residual[0]
@@ -1082,7 +1082,7 @@ class SourceFinder(object):
             _, outerclip, _ = island_data.scalars
             self.log.debug("Integrated flux for island {0}".format(isle_num))
             kappa_sigma = np.where(
-                abs(idata) - outerclip * rms > 0, idata, np.NaN)
+                abs(idata) - outerclip * rms > 0, idata, np.nan)
             self.log.debug("- island shape is {0}".format(kappa_sigma.shape))
 
             source = IslandSource()
@@ -1435,9 +1435,9 @@ class SourceFinder(object):
         curve = np.array(self.global_data.dcurve, dtype=bkgimg.dtype)
         # mask these arrays have the same mask the same as the data
         mask = np.where(np.isnan(img))
-        bkgimg[mask] = np.NaN
-        rmsimg[mask] = np.NaN
-        curve[mask] = np.NaN
+        bkgimg[mask] = np.nan
+        rmsimg[mask] = np.nan
+        curve[mask] = np.nan
 
         # Generate the new FITS files by copying the existing HDU
         # and assigning new data. This gives the new files the same
@@ -1768,7 +1768,7 @@ class SourceFinder(object):
             # relative to the sub-image
             self.log.debug("xmxxymyx {0} {1} {2} {3}".format(
                 xmin, xmax, ymin, ymax))
-            for i in range(params["components"].value):
+            for i in range(int(params["components"].value)):
                 prefix = "c{0}_".format(i)
                 # must update limits before the value as limits are
                 # enforced when the value is updated
@@ -1795,7 +1795,7 @@ class SourceFinder(object):
             # mask to include pixels that are withn the FWHM
             # of the sources being fit
             mask_params = copy.deepcopy(params)
-            for i in range(mask_params["components"].value):
+            for i in range(int(mask_params["components"].value)):
                 prefix = "c{0}_".format(i)
                 mask_params[prefix + "amp"].value = 1
             mask_model = ntwodgaussian_lmfit(mask_params)
@@ -1821,7 +1821,7 @@ class SourceFinder(object):
             # Check to see that each component has some data within
             # the central 3x3 pixels of it's location
             # If not then we don't fit that component
-            for i in range(params["components"].value):
+            for i in range(int(params["components"].value)):
                 prefix = "c{0}_".format(i)
                 # figure out a box around the center of this
                 cx, cy = (
